@@ -472,7 +472,10 @@ def gen_acord2(rng):
             za = TWO_PI - za
         add(s, f"za {s} {t} {H(za)} {H(fdh)} {H(tdh)}")
         r = rng.random()
-        if r < 0.4:
+        # a slope distance only WITHOUT instrument / target heights: AcordIntersection::execute reduces a slope distance
+        # whose end points both have heights with the point heights alone (from_dh / to_dh ignored: xy off by mm..cm,
+        # corpus/C06/pending/acord2-intersection-slope-dh.txt, notes/proposed/C06-intersection-slope-dh.diff)
+        if r < 0.4 or (use_dh and r < 0.8):
             add(s, f"d {s} {t} {H(h)}")
         elif r < 0.8:
             add(s, f"sd {s} {t} {H(math.hypot(h, dzi))} {H(fdh)} {H(tdh)}")
